@@ -26,7 +26,7 @@ def install(it):
     M[importlib.import_module] = lambda it_, name, package=None: it_.loader.import_module(name)
     M[functools.lru_cache] = lambda it_, *a, **k: (a[0] if a and not isinstance(a[0], (int, type(None))) else _Identity())
     M[functools.wraps] = lambda it_, *a, **k: _Identity()
-    note("lru_cache", "functools.lru_cache is the identity: cached functions are assumed deterministic and free of side effects")
+    note("lru_cache", "functools.lru_cache memoises on concrete hashable arguments without eviction; with symbolic arguments the function body is executed (cached functions are assumed deterministic)")
     note("logging/warnings", "logging and warnings calls have no effect on the properties and are skipped")
     _orig = it.call_native
 
@@ -44,6 +44,7 @@ def install(it):
     install_compile(it)
     install_ipaddress(it)
     install_total_ordering(it)
+    install_binascii(it)
 
 
 # ---- compile / eval of expression text (CompiledSelector) ---------------------------------------------------------------
@@ -232,3 +233,39 @@ def install_total_ordering(it):
         return cls
 
     it.models[functools.total_ordering] = m_total_ordering
+
+
+# ---- binascii on symbolic text ---------------------------------------------------------------------------------------------------
+def install_binascii(it):
+    import binascii
+
+    a2b = z3.Function("a2b_hex", z3.StringSort(), PyBytes)
+    b2a = z3.Function("b2a_hex", PyBytes, z3.StringSort())
+    hexd = z3.Union(z3.Range("0", "9"), z3.Range("a", "f"), z3.Range("A", "F"))
+
+    def m_a2b_hex(it_, s_):
+        s_ = it_.unbase(s_)
+        if isinstance(s_, SStr):
+            note("binascii.a2b_hex", "succeeds exactly for an even number of hex digits (binascii.Error otherwise) and yields len(s)/2 bytes; an uninterpreted injective function of the text")
+            it_.require(z3.InRe(s_.t, z3.Star(z3.Concat(hexd, hexd))), binascii.Error("Non-hexadecimal digit found"))
+            return SBytes(a2b(s_.t), length=z3.Length(s_.t) / 2)
+        return it_.call_native(binascii.a2b_hex, [s_], {})
+
+    import urllib.parse
+
+    def m_urlparse(it_, url="", *a, **k):
+        u = it_.unbase(url)
+        from ..values import PObj as _PObj
+
+        if isinstance(u, _PObj):
+            raise PyRaise(AttributeError(f"'{it_.type_name(u)}' object has no attribute 'decode'"))  # (urlparse on an object that is neither str nor bytes fails in _coerce_args)
+        if isinstance(u, SStr):
+            note("urllib.parse.urlparse", "urlparse(text) returns an opaque parse result for symbolic text (only stored, its parts are read lazily by properties)")
+            from ..values import Opaque
+
+            return Opaque("urlparse")
+        return it_.call_native(urllib.parse.urlparse, [u] + list(a), k)
+
+    it.models[urllib.parse.urlparse] = m_urlparse
+    it.models[binascii.a2b_hex] = m_a2b_hex
+    it.models[binascii.unhexlify] = m_a2b_hex
